@@ -409,9 +409,9 @@ class _resolve_called_lambdas(ast.NodeTransformer):
                 result = self.visit(lambda_node.body)
                 self._arg_map_list.pop()
                 return result
-        else:
-            return self.generic_visit(node)
-        return node
+        # Anything else - including a called lambda we can't substitute - is left in place,
+        # but arguments of an enclosing call may be referenced in it.
+        return self.generic_visit(node)
 
     def visit_Lambda(self, node: ast.Lambda) -> Any:
         "The parameters of a lambda that is not called hide outer arguments of the same name"
